@@ -160,6 +160,7 @@ struct slice
 channel_read_map(struct channel* self, struct channel_reader* reader)
 {
     size_t nbytes = 0;
+    int released_space = 0;
     lock_acquire(&self->lock);
 
     reader_initialize(self, reader);
@@ -203,6 +204,8 @@ channel_read_map(struct channel* self, struct channel_reader* reader)
         nbytes = self->head;
         reader->pos = self->head;
         reader->cycle = self->cycle;
+        // Moving the bookmark may free space a blocked writer is waiting for.
+        released_space = 1;
     }
     if (!nbytes) {
         out = 0;
@@ -212,6 +215,8 @@ channel_read_map(struct channel* self, struct channel_reader* reader)
 
 Finalize:
     lock_release(&self->lock);
+    if (released_space)
+        condition_variable_notify_all(&self->notify_space_available);
     return (struct slice){ .beg = out, .end = out + nbytes };
 Overflow:
     reader->status = Channel_Error;
